@@ -1,15 +1,15 @@
 ID = 'C12'
 TITLE = 'FIMO reports exactly the windows above threshold, both strands, fields correct'
 CONTRACT_MODULES = ['contracts.fimo_c']
-FUNCTIONS = ['tangermeme.tools.fimo._fast_hits', 'tangermeme.tools.fimo.fimo#threshold']
+FUNCTIONS = ['tangermeme.tools.fimo._fast_hits', 'tangermeme.tools.fimo.fimo#threshold', 'tangermeme.tools.fimo._fast_convert', 'tangermeme.tools.fimo.fimo#tensor-to-indices']
 BOUNDED = 'bounded.C12'
 BOUNDED_BUDGET = {'quick': 120, 'thorough': 600}
 LEVEL = 'other'
 EXPLANATION = ("deductive: threshold of one motif (fragment: body of the threshold loop of fimo()): the score threshold is the first bin of the table whose log p-value is below log2(threshold), +inf when none, only entry i written; (scanner kernel _fast_hits): membership of hits[k] = exactly the windows 0..len-w inclusive whose score exceeds "
                "the threshold, hit fields, score as recursive sum (unknown characters contribute 0), index safety of every array access "
-               "in the numba kernel, prange frame (iteration k appends to hits[k] only). bounded: thresholds/bins, pandas assembly, "
+               "in the numba kernel, prange frame (iteration k appends to hits[k] only); the two input conversions that feed it: _fast_convert (whole function: every byte replaced by its table entry, nothing else written) and the tensor branch of fimo() (fragment: a one-hot column becomes its letter index, an all-zero column -1 - the encoding of an unknown character the scanner relies on). bounded: thresholds/bins, pandas assembly, "
                "strands, FASTA vs tensor, dim=0/1, reverse-complement mirror image, thread counts, against a pure-Python reference scanner")
 ASSUMPTIONS = ["table coverage: the p-value table of motif k covers the bin of every above-threshold window score (link to C11, run-time checked by the bounded layer)",
                "numba uint64 arithmetic: casts are the identity on the verified ranges (index-safety obligations keep indices non-negative)",
-               "EXP2 (2.0 ** x) uninterpreted"]
+               "EXP2 (2.0 ** x) uninterpreted", "argmax along a dimension = per slice the first index of a maximal element (axiom, conformance-tested)"]
 TRUSTED = []
